@@ -71,17 +71,24 @@ Cur(t) == lc[t].idx + lc[t].j
 Unch(vs) == UNCHANGED vs
 
 \* ---- call start -----------------------------------------------------------------------------------------------
+StartBody(t, op) ==
+  /\ pc' = [pc EXCEPT ![t] = IF op.k = "get" THEN "g_lb" ELSE IF op.k = "count" THEN "c_ld" ELSE "fa"]
+  /\ lc' = [lc EXCEPT ![t] = [idx |-> IF op.k = "get" THEN op.i ELSE 0,
+                              n |-> IF op.k \in {"push", "pushpanic"} THEN 1 ELSE IF op.k = "ext" THEN op.rep ELSE 0,
+                              j |-> 0,
+                              vals |-> IF op.k \in {"push", "pushpanic"} THEN <<op.v>> ELSE IF op.k = "ext" THEN op.vals ELSE <<>>,
+                              e |-> 0, a |-> 0, b |-> 0, res |-> 0,
+                              seen |-> {d.idx : d \in {x \in done : x.k = "push"}}, after |-> ""]]
 Start(t) ==
   /\ pc[t] = "idle" /\ prog[t] # <<>> /\ ~vecgone
-  /\ LET op == Op(t) IN
-     /\ pc' = [pc EXCEPT ![t] = IF op.k = "get" THEN "g_lb" ELSE IF op.k = "count" THEN "c_ld" ELSE "fa"]
-     /\ lc' = [lc EXCEPT ![t] = [idx |-> IF op.k = "get" THEN op.i ELSE 0,
-                                 n |-> IF op.k \in {"push", "pushpanic"} THEN 1 ELSE IF op.k = "ext" THEN op.rep ELSE 0,
-                                 j |-> 0,
-                                 vals |-> IF op.k \in {"push", "pushpanic"} THEN <<op.v>> ELSE IF op.k = "ext" THEN op.vals ELSE <<>>,
-                                 e |-> 0, a |-> 0, b |-> 0, res |-> 0,
-                                 seen |-> {d.idx : d \in {x \in done : x.k = "push"}}, after |-> ""]]
+  /\ StartBody(t, Op(t))
   /\ Unch(<<inflight, bptr, allocs, nalloc, ent, prog, kn, relk, dropped, done, vecgone, bad>>)
+\* a call whose operation is given from outside (trace validation: the operation is the recorded call)
+Call(t, op) ==
+  /\ pc[t] = "idle" /\ ~vecgone
+  /\ prog' = [prog EXCEPT ![t] = <<op>>]
+  /\ StartBody(t, op)
+  /\ Unch(<<inflight, bptr, allocs, nalloc, ent, kn, relk, dropped, done, vecgone, bad>>)
 
 \* ---- push / extend ----------------------------------------------------------------------------------------------
 FetchAdd(t) ==
